@@ -20,10 +20,13 @@
           if i._first <= limit && len(i.blob) == 0 { i._first = math.MaxUint32 }
       }
 
-    [le0] is the guard of the loop: true = `sz <= 0` (the code of /repo after cd2bd2d), false = `sz < 0` (a guard that
-    only catches the overflow: a TRUNCATED varint gives sz = 0, nothing is consumed, the loop spins forever).
-    Slice expressions are checked operations.  Proofs: Proofs/FormatPosting.v. *)
-From ZV Require Import Lib.Base Lib.Varint Generated.FormatConsts Model.Format Model.Btree Model.FormatRobust Model.FormatStats.
+    The GUARDS are not hand-copied: translator/c11guard reads index/hititer.go (go/ast) and regenerates
+    Generated/PostingGuard.v on every run: for which of sz = 0 (truncated varint) / sz < 0 (overflowing varint) the `if`
+    in next's loop leaves the loop, and whether the constructor tests sz < 0.  The model is parametric in the guard
+    [g] = (stops on 0, stops on negative): g_le0 = `sz <= 0` (the code of /repo after cd2bd2d), g_lt0 = `sz < 0` (only
+    catches the overflow: a TRUNCATED varint gives sz = 0, nothing is consumed, the loop spins forever); [g_repo] is
+    what the translator found.  Slice expressions are checked operations.  Proofs: Proofs/FormatPosting.v. *)
+From ZV Require Import Lib.Base Lib.Varint Generated.FormatConsts Generated.PostingGuard Model.Format Model.Btree Model.FormatRobust Model.FormatStats.
 Open Scope N_scope.
 
 Definition MaxU32 : N := 4294967295.
@@ -36,27 +39,34 @@ Definition blob_nil (l : list N) : bool := match l with [] => true | _ => false 
 Definition slice_from_z (m : Z) (l : list N) : outcome (list N) :=
   if (m <? 0)%Z || (Z.of_nat (length l) <? m)%Z then Panic P_SLICE else Ok (skipn (Z.to_nat m) l).
 
-Definition cpi_new (b : list N) : outcome cpi :=
+Definition guard := (bool * bool)%type.
+Definition guard_fires (g : guard) (sz : Z) : bool := (fst g && (sz =? 0)%Z) || (snd g && (sz <? 0)%Z).
+Definition g_le0 : guard := (true, true).
+Definition g_lt0 : guard := (false, true).
+Definition g_repo : guard := (cpi_next_stops_on_zero, cpi_next_stops_on_negative).
+Definition chk_repo : bool := cpi_new_checks_negative.
+
+Definition cpi_new (chk : bool) (b : list N) : outcome cpi :=
   let '(d, sz) := uvarint b in
-  if (sz <? 0)%Z then Ok (mkCpi 0 [] 0)
+  if chk && (sz <? 0)%Z then Ok (mkCpi 0 [] 0)
   else do rest <- slice_from_z sz b; Ok (mkCpi (d mod W32) rest (Z.to_N sz)).
 
 (** the for loop of next; [steps] counts its iterations.  fuel = |blob| suffices when every iteration consumes a byte;
     running out of fuel with the loop condition still true is the divergence marker. *)
-Fixpoint cpi_loop (le0 : bool) (fuel : nat) (limit : N) (it : cpi) (steps : N) : outcome (cpi * N) :=
+Fixpoint cpi_loop (le0 : guard) (fuel : nat) (limit : N) (it : cpi) (steps : N) : outcome (cpi * N) :=
   if (cpi_first it <=? limit) && negb (blob_nil (cpi_blob it)) then
     match fuel with
     | O => Panic P_DIVERGE
     | S f =>
       let '(delta, sz) := uvarint (cpi_blob it) in
-      if (if le0 then (sz <=? 0)%Z else (sz <? 0)%Z) then Ok (mkCpi (cpi_first it) [] (cpi_loaded it), steps + 1)
+      if guard_fires le0 sz then Ok (mkCpi (cpi_first it) [] (cpi_loaded it), steps + 1)
       else
         do rest <- slice_from_z sz (cpi_blob it);
         cpi_loop le0 f limit (mkCpi ((cpi_first it + delta mod W32) mod W32) rest (cpi_loaded it + Z.to_N sz)) (steps + 1)
     end
   else Ok (it, steps).
 
-Definition cpi_next (le0 : bool) (limit : N) (it : cpi) : outcome (cpi * N) :=
+Definition cpi_next (le0 : guard) (limit : N) (it : cpi) : outcome (cpi * N) :=
   if limit =? MaxU32 then Ok (mkCpi MaxU32 [] (cpi_loaded it), 0)
   else
     do r <- cpi_loop le0 (length (cpi_blob it)) limit it 0;
@@ -66,7 +76,7 @@ Definition cpi_next (le0 : bool) (limit : N) (it : cpi) : outcome (cpi * N) :=
 
 (** any sequence of next(limit) calls (what the match iterators of a search do with the iterator); the loop
     iterations of all calls are summed up *)
-Fixpoint cpi_run (le0 : bool) (limits : list N) (it : cpi) (steps : N) : outcome (cpi * N) :=
+Fixpoint cpi_run (le0 : guard) (limits : list N) (it : cpi) (steps : N) : outcome (cpi * N) :=
   match limits with
   | [] => Ok (it, steps)
   | l :: r => do x <- cpi_next le0 l it; cpi_run le0 r (fst x) (steps + snd x)
@@ -74,21 +84,22 @@ Fixpoint cpi_run (le0 : bool) (limits : list N) (it : cpi) (steps : N) : outcome
 
 (** a complete walk: first(), next(first()), ... until the iterator is exhausted (first() = MaxUint32); the decoded
     postings.  |blob| + 1 rounds suffice (Proofs: every round consumes a byte or ends the walk). *)
-Fixpoint cpi_walk (le0 : bool) (fuel : nat) (it : cpi) : outcome (list N) :=
+Fixpoint cpi_walk (le0 : guard) (fuel : nat) (it : cpi) : outcome (list N) :=
   if cpi_first it =? MaxU32 then Ok []
   else match fuel with
        | O => Panic P_DIVERGE
        | S f => do x <- cpi_next le0 (cpi_first it) it; do tl <- cpi_walk le0 f (fst x); Ok (cpi_first it :: tl)
        end.
-Definition postings_of (le0 : bool) (b : list N) : outcome (list N) :=
-  do it <- cpi_new b; cpi_walk le0 (S (length (cpi_blob it))) it.
+Definition postings_of (le0 : guard) (chk : bool) (b : list N) : outcome (list N) :=
+  do it <- cpi_new chk b; cpi_walk le0 (S (length (cpi_blob it))) it.
 
 (** what a search does with the posting list of ngram g of a loaded shard: locate it (btreeIndex.Get), read it
     (readSectionBlob: [shard_ngram_search]), build the iterator, advance it with any sequence of limits *)
-Definition posting_walk (d : idata) (g : N) (limits : list N) : outcome (cpi * N) :=
+Definition posting_walk_g (gd : guard) (chk : bool) (d : idata) (g : N) (limits : list N) : outcome (cpi * N) :=
   do blob <- shard_ngram_search d g;
-  do it <- cpi_new blob;
-  cpi_run true limits it 0.
+  do it <- cpi_new chk blob;
+  cpi_run gd limits it 0.
+Definition posting_walk := posting_walk_g g_repo chk_repo.
 
 (** the same for the file-name ngrams *)
 Definition shard_name_ngram_search (d : idata) (g : N) : outcome (list N) :=
@@ -96,10 +107,11 @@ Definition shard_name_ngram_search (d : idata) (g : N) : outcome (list N) :=
   let bt := new_btree_index btreeBucketSize btreeV text (i_nameNgramSec d) (i_namePostingIndex d) in
   let s := btree_get (i_file d) bt g in
   file_read (i_file d) (fst s) (snd s).
-Definition name_posting_walk (d : idata) (g : N) (limits : list N) : outcome (cpi * N) :=
+Definition name_posting_walk_g (gd : guard) (chk : bool) (d : idata) (g : N) (limits : list N) : outcome (cpi * N) :=
   do blob <- shard_name_ngram_search d g;
-  do it <- cpi_new blob;
-  cpi_run true limits it 0.
+  do it <- cpi_new chk blob;
+  cpi_run gd limits it 0.
+Definition name_posting_walk := name_posting_walk_g g_repo chk_repo.
 
 (* ------------------------------------------------------------------ witnesses for the iterator *)
 (** postings 8, 22 and a third varint whose continuation bit promises a byte that is not there *)
@@ -155,7 +167,7 @@ Definition target_pred (bytes : list N) (isname : bool) (g : N) : N :=
   match load_shard_stats_served (mmap_file bytes) false 1 with
   | Ok d =>
     match (if isname then shard_name_ngram_search d g else shard_ngram_search d g) with
-    | Ok blob => if is_ok (postings_of true blob) then 3 else 1
+    | Ok blob => if is_ok (postings_of g_repo chk_repo blob) then 3 else 1
     | _ => 1
     end
   | _ => 0
@@ -188,11 +200,11 @@ Inductive c11icase := C11I (blob : list N) (limits : list N) (firsts : list N) (
 Fixpoint cpi_trace (limits : list N) (it : cpi) : outcome (list N * cpi) :=
   match limits with
   | [] => Ok ([], it)
-  | l :: r => do x <- cpi_next true l it; do tl <- cpi_trace r (fst x); Ok (cpi_first (fst x) :: fst tl, snd tl)
+  | l :: r => do x <- cpi_next g_repo l it; do tl <- cpi_trace r (fst x); Ok (cpi_first (fst x) :: fst tl, snd tl)
   end.
 Definition c11i_check (c : c11icase) : bool :=
   let '(C11I blob limits firsts rest loaded) := c in
-  match (do it <- cpi_new blob; do t <- cpi_trace limits it; Ok (cpi_first it :: fst t, snd t)) with
+  match (do it <- cpi_new chk_repo blob; do t <- cpi_trace limits it; Ok (cpi_first it :: fst t, snd t)) with
   | Ok (fs, it) => list_eqb N.eqb fs firsts && (nlen (cpi_blob it) =? rest) && (cpi_loaded it =? loaded)
   | _ => false
   end.
